@@ -86,7 +86,7 @@ def unjson(x):
 
 
 def load_findings():
-    path = os.path.join(VERIF, "known_findings.json")
+    path = os.environ.get("VERIF_FINDINGS") or os.path.join(VERIF, "known_findings.json")
     if not os.path.exists(path):
         return []
     with open(path) as f:
